@@ -630,7 +630,19 @@ pub fn f11_literal(rng: &mut Rng, name: &str) -> Def {
         }
     }
     // an unrelated second pattern so that "nothing else changes" is observable
-    match rng.below(6) {
+    match rng.below(7) {
+        6 => {
+            // ignore(case) on a source that spells no letter at all: ranges whose end points are not letters but that
+            // contain letters of one case only, negated forms, \x / \u escapes of letters, Unicode classes
+            let t = rng.pick_str(&["[@-\\[]+", "[ -_]", "[^ -\\[]", "[!-Z]+", "[\\x41-\\x5A]+", "[^\\x00-`]+", "\\x6B", "[\\x{3B1}-\\x{3C9}]+", "[\\[-~]", "\\p{Lu}+", "[\\x{410}-\\x{42F}]", "[?-^]{2}"]);
+            let mut p = if rng.chance(1, 3) { Pat::skip(t) } else { Pat::regex(t, 0) };
+            p.priority = Some(30 + rng.below(9));
+            p.ignore_case = true;
+            def.push(p);
+            if def.pats.iter().all(|p| p.kind == PatKind::Skip) {
+                def.push(Pat::token("\u{1}\u{3}", 0));
+            }
+        }
         0 | 1 => {
             def.push(Pat::regex("[0-9]+", 0).prio(1));
         }
